@@ -131,6 +131,7 @@ func main() {
 		if !h.SlowInitial {
 			h.PEMStyle = i % 5
 		}
+		h.OldMtime = i%3 == 1
 	}
 
 	var (
